@@ -682,7 +682,9 @@ func c13EntityFieldFlow(p *Prog, r *Report, rule string) {
 			want, known := tagField[jn]
 			// source fields of e mentioned in the written value
 			src := map[string]bool{}
-			for _, part := range strings.FieldsFunc(val, func(r rune) bool { return !(r == '.' || r == '_' || r >= 'a' && r <= 'z' || r >= 'A' && r <= 'Z' || r >= '0' && r <= '9') }) {
+			for _, part := range strings.FieldsFunc(val, func(r rune) bool {
+				return !(r == '.' || r == '_' || r >= 'a' && r <= 'z' || r >= 'A' && r <= 'Z' || r >= '0' && r <= '9')
+			}) {
 				if strings.HasPrefix(part, "e.") {
 					f := strings.SplitN(part[2:], ".", 2)[0]
 					src[f] = true
